@@ -8,16 +8,19 @@ J=4
 if [ "$1" = "-j" ]; then J=$2; shift 2; fi
 sel="$*"
 OUT=/tmp/seedpar; rm -rf $OUT; mkdir -p $OUT
+# the engine binary and the commit of /repo are pinned at the start, so that a long run is not disturbed by
+# rebuilds of the engine or later hook commits
+GOVC=/tmp/seedpar-govc-$$; cp /verif/bin/govc $GOVC; REV=$(git -C /repo rev-parse HEAD); export GOVC REV
 one() {
   id=$1; checks=$2
   WT=/tmp/sw-$id; SV=/tmp/sv-$id
   git -C /repo worktree remove --force $WT >/dev/null 2>&1; rm -rf $WT $SV
-  git -C /repo worktree add -q --detach $WT HEAD || { echo "$id: worktree failed"; return; }
+  git -C /repo worktree add -q --detach $WT $REV || { echo "$id: worktree failed"; return; }
   git -C $WT apply /verif/seeded/$id/patch.diff || { echo "$id: patch does not apply" > $OUT/$id.tsv; git -C /repo worktree remove --force $WT; return; }
   mkdir -p $SV; for f in spec known_findings.txt replaysrc tools bin; do ln -s /verif/$f $SV/$f; done
   : > $OUT/$id.tsv
   for prop in $checks; do
-    out=$(/verif/bin/govc check -repo $WT -verif $SV $prop quick 2>&1); rc=$?
+    out=$($GOVC check -repo $WT -verif $SV $prop quick 2>&1); rc=$?
     n=$(echo "$out" | grep -c '^VIOLATION')
     first=$(echo "$out" | grep -m1 '^VIOLATION' | sed 's/.*replay=//; s/ .*//')
     obl=""; [ -n "$first" ] && obl=$(grep -m1 '^failed obligation:' $first | cut -c20-160)
@@ -33,4 +36,4 @@ while IFS=$'\t' read id demo dest args checks; do
 done < seeded/seeds.tsv | xargs -P $J -I{} bash -c 'IFS="|" read id checks <<< "{}"; one "$id" "$checks"'
 git -C /repo worktree prune
 if [ -z "$sel" ]; then cat $OUT/*.tsv | sort > seeded/RESULTS.tsv; fi
-rm -rf $OUT
+rm -rf $OUT $GOVC
